@@ -19,7 +19,7 @@ pub fn run(ctx: &Ctx) -> &'static str {
     ctx.explore(
         "decisions",
         "client datagrams (data, retransmit-flagged, control; critical window open or closed) through the real handle_srt_packet on a real shell (1..4 links) after a generated history of real uplink packets, housekeeping, clock steps across the timeout and stall windows, config changes and stamping writes; the link holding the unique copy must be registered, heard within the timeout and not stall-gated; non-trivial = a decision taken while an ineligible link (registering / timed out / stall-gated) was present; override-path decisions counted",
-        ctx.tier.pick(8_000, 200_000),
+        ctx.tier.pick(30_000, 400_000),
         || decide::strategy(mo),
         |_| |c: &decide::Case, o: &mut Obs| decide::check(c, o, Which::C04, ctx),
     );
